@@ -520,7 +520,7 @@ func (t *Tr) run(verify bool) {
 	// assume preconditions
 	env := t.entryEnv(t.entrySt)
 	if t.ct != nil {
-		for _, r := range append(append([]*Clause{}, t.ct.Requires...), t.ct.Assumes...) {
+		for _, r := range append(append(append([]*Clause{}, t.ct.Requires...), t.ct.Assumes...), t.ct.Preserves...) {
 			tm, err := env.boolExpr(r.E)
 			if err != nil {
 				t.unsup("requires (%s:%d): %v", r.File, r.Line, err)
@@ -832,6 +832,26 @@ func (t *Tr) finish() {
 	}
 	ct := t.ct
 	if ct != nil {
+		for k, e := range ct.Preserves {
+			var parts []Term
+			ok := true
+			for _, r := range t.rets {
+				g, err := t.exitEnv(r).boolExpr(e.E)
+				if err != nil {
+					t.unsup("preserves (%s:%d): %v", e.File, e.Line, err)
+					ok = false
+					break
+				}
+				parts = append(parts, implies(r.reach, g))
+			}
+			if ok {
+				name := e.Name
+				if name == "" {
+					name = fmt.Sprint(k + 1)
+				}
+				t.addObl("preserve", name, t.fn.Pos(), tTrue, and(parts...), "preserved by every call of the closure: "+e.Text)
+			}
+		}
 		for k, e := range ct.Ensures {
 			if e.Assumed {
 				t.trusted["assumed postcondition of "+ct.Key+" (not proved for its body): "+e.Text] = true
